@@ -475,6 +475,15 @@ func (s *Server) handleBatchRequest(ctx context.Context, batchReq []json.RawMess
 func isBatch(reader *bufio.Reader) bool {
 	for n := 1; ; n++ {
 		buf, err := reader.Peek(n)
+		if errors.Is(err, bufio.ErrBufferFull) {
+			// Everything buffered so far is insignificant whitespace: drop it and keep
+			// looking, instead of mistaking a batch for a single request.
+			if _, err = reader.Discard(n - 1); err != nil {
+				return false
+			}
+			n = 0
+			continue
+		}
 		if err != nil {
 			return false
 		}
